@@ -144,7 +144,9 @@ class C13Opener(Monitor):
         if n == 'BlindOrStraddlePosting':
             self.posted[operation.player_index] = operation.amount
         if n in BET_OPS:
-            if self.round_open and self.snap is not None and self.snap['street'] is not None:
+            ups = [c for i in range(s.player_count) for c in s.get_up_cards(i) if c]
+            repeated = len(ups) != len(set(ups))      # a card face up twice: outside the rules for exposed hands
+            if self.round_open and self.snap is not None and self.snap['street'] is not None and not repeated:
                 exp, why = self.expected_first(s, self.snap)
                 if exp is not None and exp != operation.player_index:
                     self.report('first_actor', f'first:{self.snap["street"].opening.name}:street{self.snap["street_index"]}',
@@ -169,6 +171,11 @@ class C13Opener(Monitor):
         except Exception:  # noqa: BLE001
             return
         if actor is None or s.street is None:
+            return
+        ups = [c for i in range(s.player_count) if s.statuses[i] for c in s.get_up_cards(i) if c]
+        if len(ups) != len(set(ups)):
+            # the same card face up twice (dealt again against the dealability warning): the rules for exposed
+            # hands rank distinct cards only
             return
         key = (s.street_index, len(s.operations))
         if self.checked_round == key:
